@@ -14,6 +14,8 @@
 #include "nmtools/array/view/ufuncs/divide.hpp"
 #include "nmtools/array/view/transpose.hpp"
 #include "nmtools/array/view/flatten.hpp"
+#include "nmtools/array/view/concatenate.hpp"
+#include "nmtools/array/view/matmul.hpp"
 #include "nmtools/array/functional/functor.hpp"
 #include "nmtools/array/functional/compute_graph.hpp"
 #include "nmtools/array/functional/ufunc/ufunc.hpp"
@@ -26,6 +28,8 @@
 #include "nmtools/array/functional/ufuncs/divide.hpp"
 #include "nmtools/array/functional/transpose.hpp"
 #include "nmtools/array/functional/flatten.hpp"
+#include "nmtools/array/functional/concatenate.hpp"
+#include "nmtools/array/functional/matmul.hpp"
 #include <set>
 #include <algorithm>
 using namespace verif;
@@ -78,6 +82,15 @@ static vj::value run(const std::string& name) {
         return graph_of(v, {{id_of(ex), {X}}, {id_of(t), {id_of(ex)}}, {id_of(m), {id_of(t), id_of(ex)}}, {id_of(v), {id_of(m), id_of(ex)}}}); }
     if (name == "deep_shared_r") { auto t = unwrap(view::tanh(ex)); auto m = unwrap(view::multiply(ex, t)); auto v = unwrap(view::add(ex, m));
         return graph_of(v, {{id_of(ex), {X}}, {id_of(t), {id_of(ex)}}, {id_of(m), {id_of(ex), id_of(t)}}, {id_of(v), {id_of(ex), id_of(m)}}}); }
+    // through the generic (non-ufunc) extraction path
+    if (name == "cat_exp_exp") { auto v = unwrap(view::concatenate(ex, ex, 0)); return graph_of(v, {{id_of(ex), {X}}, {id_of(v), {id_of(ex), id_of(ex)}}}); }
+    if (name == "cat_x_exp") { auto v = unwrap(view::concatenate(x, ex, 0)); return graph_of(v, {{id_of(ex), {X}}, {id_of(v), {X, id_of(ex)}}}); }
+    if (name == "cat_exp_x") { auto v = unwrap(view::concatenate(ex, x, 0)); return graph_of(v, {{id_of(ex), {X}}, {id_of(v), {id_of(ex), X}}}); }
+    if (name == "flat_plus_flat") { auto f = unwrap(view::flatten(ex)); auto v = unwrap(view::add(f, f)); return graph_of(v, {{id_of(ex), {X}}, {id_of(f), {id_of(ex)}}, {id_of(v), {id_of(f), id_of(f)}}}); }
+    if (name == "matmul_xyT") { auto t = unwrap(view::transpose(y, None)); auto v = unwrap(view::matmul(x, t)); return graph_of(v, {{id_of(t), {Y}}, {id_of(v), {X, id_of(t)}}}); }
+    if (name == "matmul_xxT") { auto t = unwrap(view::transpose(x, None)); auto v = unwrap(view::matmul(x, t)); return graph_of(v, {{id_of(t), {X}}, {id_of(v), {X, id_of(t)}}}); }
+    if (name == "cat_flat_sum_diff") { auto f = unwrap(view::flatten(axy)); auto g2 = unwrap(view::flatten(sxy)); auto v = unwrap(view::concatenate(f, g2, 0));
+        return graph_of(v, {{id_of(axy), {X, Y}}, {id_of(sxy), {X, Y}}, {id_of(f), {id_of(axy)}}, {id_of(g2), {id_of(sxy)}}, {id_of(v), {id_of(f), id_of(g2)}}}); }
     return crash_res("driver:unknown expression");
 }
 static vj::value handle(const vj::value& c) {
